@@ -21,6 +21,40 @@ func init() {
 		"(time.Time).Sub":      func(fr *frame, a []value) value { return int64(0) },
 		"time.Unix":            extTimeNow,
 		"time.Since":           func(fr *frame, a []value) value { return int64(0) },
+		"time.Until":           func(fr *frame, a []value) value { return int64(1) << 40 },
+		"time.AfterFunc":       extTimeAfterFunc,
+		"time.NewTimer":        extTimeAfterFunc,
+		"(*time.Timer).Stop":   func(fr *frame, a []value) value { return true },
+		"(*time.Timer).Reset":  func(fr *frame, a []value) value { return true },
+		"(time.Time).Compare":  func(fr *frame, a []value) value { return 0 },
+
+		"(*sync/atomic.Value).Load": func(fr *frame, a []value) value {
+			fr.schedPoint("atomic")
+			return (*a[0].(*value)).(structure)[0]
+		},
+		"(*sync/atomic.Value).Store": func(fr *frame, a []value) value {
+			fr.schedPoint("atomic")
+			if a[1].(iface).t == nil {
+				panic(targetPanic{v: iface{types.Typ[types.String], "sync/atomic: store of nil value into Value"}, site: fr.site()})
+			}
+			(*a[0].(*value)).(structure)[0] = a[1]
+			return nil
+		},
+		"(*sync/atomic.Value).Swap": func(fr *frame, a []value) value {
+			fr.schedPoint("atomic")
+			old := (*a[0].(*value)).(structure)[0]
+			(*a[0].(*value)).(structure)[0] = a[1]
+			return old
+		},
+		"(*sync/atomic.Value).CompareAndSwap": func(fr *frame, a []value) value {
+			fr.schedPoint("atomic")
+			cur := (*a[0].(*value)).(structure)[0]
+			if fr.p.truth(fr.p.eqv(cur, a[1])) {
+				(*a[0].(*value)).(structure)[0] = a[2]
+				return true
+			}
+			return false
+		},
 
 		"math/rand.NewSource":           extRandNewSource,
 		"(*math/rand.rngSource).Int63":  extRandInt63,
@@ -64,4 +98,12 @@ func extRandIntn(fr *frame, a []value) value {
 	v := p.freshRand("randn", 64)
 	p.assume(p.tt.Cmp(OpUlt, v, p.tt.BV(uint64(n), 64)))
 	return fromTerm(v, types.Typ[types.Int])
+}
+
+// extTimeAfterFunc: timers never fire (time does not advance).
+func extTimeAfterFunc(fr *frame, a []value) value {
+	tp := fr.i.env.pkgs["time"]
+	t := tp.Type("Timer").Object().Type()
+	z := zero(t)
+	return &z
 }
